@@ -66,7 +66,7 @@ class ContCheck(vlib.PropertyCheck):
 
     def extra_steps(self, ctx):
         # operation histogram by interface.operation instead of by first token
-        p = os.path.join(vlib.BUILD, 'work', self.id.lower(), 'cases-main.txt')
+        p = getattr(self, 'last_main_cases_path', None) or os.path.join(vlib.BUILD, 'work', self.id.lower(), 'cases-main-%d.txt' % os.getpid())
         try:
             with open(p) as f:
                 cases = [l.rstrip('\n') for l in f]
